@@ -236,6 +236,25 @@ func driveBSCClient(t *testing.T, in, out string, seed int64) {
 				if r.OK() {
 					w.Head = h
 				}
+			case "Upgrade":
+				// a governance UpgradeClientProposal installing a new client state whose header is hd and whose validator set is st["set"]
+				hd := st["hd"].(M)
+				h := keys.header(uint64(num(hd["number"])), common.BytesToHash([]byte("upgrade parent")), int(num(hd["signer"])), hd["coinbaseOK"].(bool), num(hd["diff"]), ints(hd["extra"]),
+					hd["structOK"].(bool), "root-up-"+str(hd["number"]))
+				var vb [][]byte
+				for _, v := range ints(st["set"]) {
+					vb = append(vb, keys.Addrs[v-1].Bytes())
+				}
+				ncs := &bsctypes.ClientState{Header: *h, ChainId: bscChainID, Epoch: epoch, BlockInteval: 3, Validators: vb,
+					ContractAddress: common.HexToAddress("0x1234").Bytes(), TrustingPeriod: 1_000_000_000}
+				ncons := &bsctypes.ConsensusState{Timestamp: h.Time, Height: h.Height, Root: h.Root}
+				up, err := clienttypes.NewUpgradeClientProposal("t", "d", bscName, ncs, ncons)
+				must(err)
+				res, msg := c.ExecProposal(up)
+				line["res"], line["msg"] = res, clip(msg)
+				if res == "ok" {
+					w.Head = h
+				}
 			default:
 				t.Fatalf("unknown action %q", act)
 			}
